@@ -2,7 +2,7 @@
 From Coq Require Import NArith Bool List.
 Import ListNotations.
 From XetModel Require Import Base.Codec Gen.ShardLayout Model.Merkle Model.Shard Model.Crash Proofs.SetOpProofs Proofs.SetOpSortedProofs.
-From XetModel Require Import Proofs.CodecProofs Proofs.ShardWholeProofs Proofs.ShardDedupWholeProofs Proofs.ShardProofs Proofs.MergeProofs Proofs.MergeAllProofs Proofs.MergeResegProofs.
+From XetModel Require Import Proofs.CodecProofs Proofs.ShardWholeProofs Proofs.ShardDedupWholeProofs Proofs.ShardProofs Proofs.MergeProofs Proofs.MergeAllProofs Proofs.MergeResegProofs Proofs.UnionWfProofs.
 Open Scope N_scope.
 
 (* keys are the four u64 words the code orders and compares by *)
@@ -87,6 +87,20 @@ Theorem C10_merge_all_covers_inputs : forall (g : list (fname * sshard)) acc m, 
   forall x, shard_recs (ss_bytes acc) x \/ (exists n s, In (n, s) g /\ shard_recs (ss_bytes s) x) -> shard_recs m x.
 Proof. exact merge_all_covers_inputs. Qed.
 
+(* away from known finding K2 the union is well-formed: when every pair of records of one file, one from each input, has
+   segment lists of the same length (SameSegs), the merge of two well-formed records is well-formed, every record of the
+   union is, and -- with the size bounds of the result -- ShardOk of the inputs gives ShardOk of their union, which is the
+   premise of C10_merge_covers_inputs / C10_merge_invents_nothing and of UnionsOk in the group theorems *)
+Theorem C10_merge_of_same_segmentation_is_wellformed : forall a b, wf_file a -> wf_file b -> length (fi_segs a) = length (fi_segs b) -> wf_file (merge_disk a b).
+Proof. exact merge_disk_wf. Qed.
+Theorem C10_union_of_wellformed_shards_is_wellformed : forall fa ca ta ka cra exa fb cb tb kb crb exb,
+  ShardOk fa ca ta ka cra exa -> ShardOk fb cb tb kb crb exb -> SameSegs fa fb ->
+  let fu := union_files (length fa + length fb) fa fb in let cu := union_cas (length ca + length cb) ca cb in
+  is_u64 (sum_ndisk cu) -> is_u64 (sum_materialized fu) -> is_u64 (sum_nbytes cu) ->
+  N.of_nat (length (w_bs fu cu (d_ctbl cu) zero_hash 0 u64max)) < 4294967296 ->
+  ShardOk fu cu (d_ctbl cu) zero_hash 0 u64max.
+Proof. exact union_shard_ok. Qed.
+
 (* known finding K2, on the model's side: two well-formed records of one file whose segment lists differ -- the same bytes
    deduplicated differently by two sessions -- merge into a record that is not well-formed: the segments of one, the
    verification entries of the other (two segments, three verification entries).  On disk (shard_set_union's Merge branch)
@@ -114,3 +128,5 @@ Print Assumptions C10_merge_invents_nothing.
 Print Assumptions C10_merge_all_covers_inputs.
 Print Assumptions C10_merge_of_resegmented_records_refuted.
 Print Assumptions C10_merge_from_of_resegmented_records_refuted.
+Print Assumptions C10_merge_of_same_segmentation_is_wellformed.
+Print Assumptions C10_union_of_wellformed_shards_is_wellformed.
